@@ -86,6 +86,8 @@ type hClause struct {
 	prems    []hPrem
 	doKeys   []string // nil: no transform; otherwise group_by keys, followed by let N = fn:count()
 	hasDo    bool
+	letVar   string // "": none; otherwise a let-transform  |> let letVar = letExpr
+	letExpr  hTerm
 }
 
 func (c hClause) String() string {
@@ -100,6 +102,9 @@ func (c hClause) String() string {
 	s := c.headPred + "(" + strings.Join(hs, ",") + ") :- " + strings.Join(ps, ", ")
 	if c.hasDo {
 		s += " |> do fn:group_by(" + strings.Join(c.doKeys, ",") + "), let N = fn:count()"
+	}
+	if c.letVar != "" {
+		s += " |> let " + c.letVar + " = " + c.letExpr.String()
 	}
 	return s + "."
 }
@@ -336,6 +341,15 @@ func (q *clauseKit) clause(c hClause) *ordabs.Rec {
 		ps = append(ps, q.prem(p))
 	}
 	cl.Fields["Premises"] = &ordabs.Slice{Elems: &ps}
+	if c.letVar != "" {
+		tr := q.k.zero("ast", "Transform")
+		s1 := q.k.zero("ast", "TransformStmt")
+		s1.Fields["Var"] = &ordabs.Obj{Name: c.letVar, Fields: map[string]ordabs.Value{"Symbol": c.letVar}, T: "ast.Variable"}
+		s1.Fields["Fn"] = q.term(c.letExpr)
+		st := []ordabs.Value{s1}
+		tr.Fields["Statements"] = &ordabs.Slice{Elems: &st}
+		cl.Fields["Transform"] = &ordabs.Obj{Name: "transform", Fields: tr.Fields, T: "ast.Transform"}
+	}
 	if c.hasDo {
 		tr := q.k.zero("ast", "Transform")
 		s1 := q.k.zero("ast", "TransformStmt")
